@@ -107,6 +107,8 @@ struct Hist {
     dup_attempt: bool,
     /// ledgers that pass after the set was installed (no rotation in between)
     advance: u32,
+    /// message m1 is already approved (1) or approved and executed (2) before the submission
+    pre: u8,
 }
 
 struct Ctx {
@@ -118,6 +120,7 @@ struct Ctx {
     retained: bool,
     full: bool,
     skip: bool,
+    pre: u8,
 }
 
 struct C01 {
@@ -157,13 +160,15 @@ impl C01 {
             ]);
         }
         let hists = [
-            Hist { retention: 0, rotations: 0, dup_attempt: false, advance: 0 },
-            Hist { retention: 1, rotations: 1, dup_attempt: false, advance: 0 },
-            Hist { retention: 0, rotations: 1, dup_attempt: false, advance: 0 },
-            Hist { retention: 2, rotations: 3, dup_attempt: false, advance: 0 },
-            Hist { retention: 2, rotations: 2, dup_attempt: false, advance: 0 },
-            Hist { retention: 0, rotations: 0, dup_attempt: false, advance: 20 },
-            Hist { retention: 1, rotations: 1, dup_attempt: false, advance: 1000 },
+            Hist { retention: 0, rotations: 0, dup_attempt: false, advance: 0, pre: 0 },
+            Hist { retention: 1, rotations: 1, dup_attempt: false, advance: 0, pre: 0 },
+            Hist { retention: 0, rotations: 1, dup_attempt: false, advance: 0, pre: 0 },
+            Hist { retention: 2, rotations: 3, dup_attempt: false, advance: 0, pre: 0 },
+            Hist { retention: 2, rotations: 2, dup_attempt: false, advance: 0, pre: 0 },
+            Hist { retention: 0, rotations: 0, dup_attempt: false, advance: 20, pre: 0 },
+            Hist { retention: 1, rotations: 1, dup_attempt: false, advance: 1000, pre: 0 },
+            Hist { retention: 0, rotations: 0, dup_attempt: false, advance: 0, pre: 1 },
+            Hist { retention: 1, rotations: 1, dup_attempt: false, advance: 0, pre: 2 },
         ];
         let mut cfgs = vec![];
         for s in &sets {
@@ -172,7 +177,7 @@ impl C01 {
                 cfgs.push((s.clone(), *h, hi == 0 || s.weights.len() <= 3));
             }
         }
-        cfgs.push((scfg(&[1], 1), Hist { retention: 0, rotations: 0, dup_attempt: true, advance: 0 }, true));
+        cfgs.push((scfg(&[1], 1), Hist { retention: 0, rotations: 0, dup_attempt: true, advance: 0, pre: 0 }, true));
         C01 { cfgs, thorough }
     }
 
@@ -218,8 +223,8 @@ impl Scenario for C01 {
     fn config_label(&self, c: usize) -> String {
         let (s, h, full) = &self.cfgs[c];
         format!(
-            "weights {:?} threshold {} retention {} rotations-after {} ledgers-after {} full-alphabet {}",
-            s.weights, s.threshold, h.retention, h.rotations, h.advance, full
+            "weights {:?} threshold {} retention {} rotations-after {} ledgers-after {} m1-known-before {} full-alphabet {}",
+            s.weights, s.threshold, h.retention, h.rotations, h.advance, h.pre, full
         )
     }
     fn world<'a>(&self, ctx: &'a Ctx) -> &'a World {
@@ -240,6 +245,22 @@ impl Scenario for C01 {
             nonce: 7,
         };
         let gw = register_gateway(&w, None, &owner, &operator, &DOMAIN, 0, h.retention, &[set.raw(&keys)]);
+        if h.pre > 0 {
+            let m1 = msg_scval(
+                &Msg { chain: "src".into(), id: "m1".into(), src: "sender".into(), dest: 0, payload_hash: [1; 32] },
+                &w.sc_addr(&dest),
+            );
+            assert!(approve(&w, &gw, &keys, &set, &DOMAIN, &[m1]).ok);
+            if h.pre == 2 {
+                let c = w.call(
+                    &gw,
+                    "validate_message",
+                    &[dest.to_val(), to_val(env, &sstr("src")), to_val(env, &sstr("m1")), to_val(env, &sstr("sender")), to_val(env, &sbytes(&[1; 32]))],
+                    Auth::By(&[dest.clone()]),
+                );
+                assert!(c.ok);
+            }
+        }
         // rotations through the real entry point, each authorised by the then-latest set
         let mut latest = set.clone();
         for r in 0..h.rotations {
@@ -278,7 +299,7 @@ impl Scenario for C01 {
                 skip = true;
             }
         }
-        (Ctx { w, gw, keys, set, dest, retained, full: *full, skip }, 0)
+        (Ctx { w, gw, keys, set, dest, retained, full: *full, skip, pre: h.pre }, 0)
     }
 
     fn actions(&self, ctx: &Ctx, _m: &u8) -> Vec<Act> {
@@ -570,6 +591,13 @@ impl Scenario for C01 {
                     continue;
                 }
                 seen.push(k);
+                if ctx.pre > 0 && m.id == "m1" {
+                    // known before the submission: no new approval, no event; an approved one
+                    // keeps its recorded content, an executed one stays executed
+                    let q = w.query(&ctx.gw, "is_message_executed", &[to_val(env, &sstr(&m.chain)), to_val(env, &sstr(&m.id))]);
+                    out.expect(q == Some(ScVal::Bool(ctx.pre == 2)), "accepted.known-message-status-changed", || format!("{:?}: executed = {:?}", m, q));
+                    continue;
+                }
                 expected.push(EvPat {
                     contract: w.sc_addr(&ctx.gw),
                     name: "message_approved",
@@ -607,7 +635,7 @@ fn main() {
     main_for(|tier| {
         let s = C01::new(tier == "thorough");
         let mut o = Opts::new(tier, 1);
-        o.rule = "one submission from each base state; base states = 11 (quick) / 17 (thorough, adds 4-signer sets) signer configurations with boundary weights/thresholds x 7 histories (retention 0-2, 0-3 real rotations after the set under test, 0 / 20 / 1000 ledgers passing). Per base state: EVERY vector of per-signer status from {unsigned, valid, other domain separator, other command kind, other batch, other signer-set hash, other key, bit-flipped R, bit-flipped s} (9^N on the fresh gateway, 3^N on the histories) through approve_messages and validate_proof; 10 tamperings of the declared set x {signatures over the true set's digest, over the tampered set's digest}; batches of 1, 2 and 2-with-duplicate-id, each also submitted with one field / one message changed relative to the signed batch. Oracle: independent predicate (set installed and retained, valid weight >= threshold) with independently recomputed digests".into();
+        o.rule = "one submission from each base state; base states = 11 (quick) / 17 (thorough, adds 4-signer sets) signer configurations with boundary weights/thresholds x 9 histories (retention 0-2, 0-3 real rotations after the set under test, 0 / 20 / 1000 ledgers passing, message m1 already approved / already executed before the submission). Per base state: EVERY vector of per-signer status from {unsigned, valid, other domain separator, other command kind, other batch, other signer-set hash, other key, bit-flipped R, bit-flipped s} (9^N on the fresh gateway, 3^N on the histories) through approve_messages and validate_proof; 10 tamperings of the declared set x {signatures over the true set's digest, over the tampered set's digest}; batches of 1, 2 and 2-with-duplicate-id, each also submitted with one field / one message changed relative to the signed batch. Oracle: independent predicate (set installed and retained, valid weight >= threshold) with independently recomputed digests".into();
         (s, o)
     });
 }
